@@ -21,7 +21,7 @@ func init() {
 			ruleM6(c)
 			ruleX1(c) // a frame that was written only in part ends the mux: nothing is ever written after a truncated frame
 		},
-		explanation: "Decides the framing structure of the multiplexer: every write to the trunk happens in mux.write with the trunk write lock held, the lock being taken before the chunk loop and released only by the deferred unlock (so header, payload and all chunks of one logical write are contiguous on the trunk); the length written into the header, the upper bound of the payload slice and the advance of the remaining data are one and the same value, the id written is the connection's, and both slice expressions are proved in bounds inductively; writer and reader use the same byte order and the same constant header sub-ranges for id and length; there is exactly one reader goroutine, started where the mux is created, and it is the only code that reads the trunk and the only sender on the per-connection queues, whose only receiver is conn.Read; the buffer queued is the buffer read and it is queued on the connection looked up under the header's id; the raw trunk handed out by Trunk() is used only for the peer-credential lookup; Read copies out of the dequeued message and returns its length. Every trunk read is a full read (io.ReadFull); only Open adds to and only conn.Close removes from the connection table.",
+		explanation: "Decides the framing structure of the multiplexer: every write to the trunk happens in mux.write with the trunk write lock held, the lock being taken before the chunk loop and released only by the deferred unlock (so header, payload and all chunks of one logical write are contiguous on the trunk); the length written into the header, the upper bound of the payload slice and the advance of the remaining data are one and the same value, the id written is the connection's, and both slice expressions are proved in bounds inductively; writer and reader use the same byte order and the same constant header sub-ranges for id and length; there is exactly one reader goroutine, started where the mux is created, and it is the only code that reads the trunk and the only sender on the per-connection queues, whose only receiver is conn.Read; the buffer queued is the buffer read and it is queued on the connection looked up under the header's id; the raw trunk handed out by Trunk() is used only for the peer-credential lookup; Read copies out of the dequeued message and returns its length. Every trunk read is a full read (io.ReadFull); only Open adds to and only conn.Close removes from the connection table. The id lookup in Open is made under the exclusive lock the registration is made under; a partial trunk write ends the mux whatever the error.",
 		notDecided: []string{
 			"what the peer wrote; reassembly of oversized payloads above the mux",
 			"kernel socket semantics",
